@@ -3,6 +3,7 @@ package main
 import (
 	"fmt"
 	"os"
+	"runtime"
 	"sort"
 	"strings"
 	"sync"
@@ -166,8 +167,14 @@ func (w *World) Explore(spec RunSpec, known map[string]bool, workers int, seed i
 								outcome = "inconclusive"
 								inconcl = "killed"
 							default:
-								x.killAll()
-								panic(r)
+								// an internal error of the engine (an SSA shape it does not handle) is never "held"
+								if re, isRT := r.(runtime.Error); isRT {
+									outcome = "inconclusive"
+									inconcl = "unsupported: engine internal error: " + re.Error() + " at " + x.here("")
+								} else {
+									x.killAll()
+									panic(r)
+								}
 							}
 						}
 					}()
